@@ -6,6 +6,8 @@ import (
 	"go/ast"
 	"go/parser"
 	"go/token"
+	"math/rand"
+	"reflect"
 
 	"github.com/dave/dst"
 	"github.com/dave/dst/decorator"
@@ -19,6 +21,19 @@ type c13Input struct {
 	Src      string `json:"src"`
 	Resolver bool   `json:"resolver"`
 	Prune    []int  `json:"prune"` // indices in the reflection preorder
+	// NilOptional > 0: after decorating, every child that dst.go documents as optional ("or nil") is
+	// set to nil with probability 1/NilOptional (seeded): trees with absent optional children
+	NilOptional int   `json:"nil_optional,omitempty"`
+	Seed        int64 `json:"seed,omitempty"`
+}
+
+// single children that dst.go documents as "or nil" / "nil means ..."
+var c13Optional = map[string][]string{
+	"Field": {"Type", "Tag"}, "Ellipsis": {"Elt"}, "CompositeLit": {"Type"}, "SliceExpr": {"Low", "High", "Max"},
+	"TypeAssertExpr": {"Type"}, "FuncType": {"TypeParams", "Results"}, "BranchStmt": {"Label"}, "IfStmt": {"Init", "Else"},
+	"SwitchStmt": {"Init", "Tag"}, "TypeSwitchStmt": {"Init"}, "CommClause": {"Comm"}, "ForStmt": {"Init", "Cond", "Post"},
+	"RangeStmt": {"Key", "Value"}, "ImportSpec": {"Name"}, "ValueSpec": {"Type"}, "TypeSpec": {"TypeParams"},
+	"FuncDecl": {"Recv", "Body"},
 }
 
 type c13LogVisitor struct {
@@ -49,6 +64,21 @@ func c13Check(in c13Input) (key, what string) {
 	var f *dst.File
 	if pm := safely(func() { f, err = dec.DecorateFile(af) }); pm != "" || err != nil {
 		return "", "" // C15/C17 territory
+	}
+	if in.NilOptional > 0 {
+		rnd := rand.New(rand.NewSource(in.Seed))
+		var nodes []dst.Node
+		reflectPreorder(f, nil, &nodes)
+		for _, n := range nodes {
+			for _, fld := range c13Optional[kindOf(n)] {
+				if rnd.Intn(in.NilOptional) == 0 {
+					fv := reflect.ValueOf(n).Elem().FieldByName(fld)
+					if fv.IsValid() && fv.CanSet() {
+						fv.Set(reflect.Zero(fv.Type()))
+					}
+				}
+			}
+		}
 	}
 	var all []dst.Node
 	reflectPreorder(f, nil, &all)
@@ -137,7 +167,7 @@ func c13Check(in c13Input) (key, what string) {
 	}
 	// (4) go/ast traversal of the source, comments removed, mapped to dst; a collapsed
 	// qualified identifier contributes one visit instead of three
-	if len(in.Prune) == 0 {
+	if len(in.Prune) == 0 && in.NilOptional == 0 {
 		var aseq []dst.Node
 		ast.Inspect(af, func(n ast.Node) bool {
 			switch n.(type) {
@@ -187,6 +217,15 @@ func c13Prop(c *Ctx) {
 				c.Res.hist("c13", fmt.Sprintf("resolver=%v pruned=%v", res, r > 0))
 				if key, what := c13Check(in); key != "" {
 					c.Res.fail(key, what, in)
+				}
+				if r == 1 && !res {
+					// the same tree with optional children removed
+					in2 := c13Input{Src: src, Prune: in.Prune, NilOptional: 1 + c.Rng.Intn(3), Seed: c.Rng.Int63()}
+					c.Res.Evaluations++
+					c.Res.hist("c13", "optional children set to nil")
+					if key, what := c13Check(in2); key != "" {
+						c.Res.fail(key, what, in2)
+					}
 				}
 				if len(c.Res.Samples) < 2 && r == 1 {
 					c.Res.Samples = append(c.Res.Samples, map[string]interface{}{"src": clip(src, 200), "resolver": res, "prune": in.Prune})
